@@ -10,8 +10,8 @@ import (
 
 // writeTarget: a location possibly written inside a loop.
 type writeTarget struct {
-	ptr   *PtrV   // sub-location of an object
-	whole *Obj    // entire object content (arrays)
+	ptr   *PtrV // sub-location of an object
+	whole *Obj  // entire object content (arrays)
 	ghost string
 }
 
